@@ -279,7 +279,7 @@ var c14Progs = []string{
 	`BEGIN { print ARGC, ARGV[1], ARGV[2], length(ARGV); SUBSEP = ":"; a[1,2] = 3; for (k in a) print k; print length(u), u1 == 0, u1 == "" } { t[$1]; if (NR == 1) RS = ";" } END { print length(t), x, NR; print FNR, FILENAME }`,
 	`BEGIN { if (ENVIRON["K"] == "err") { getline; $5 = "e"; NF = 7; while (i++ < 3) for (k in ENVIRON) if (i == 2) print substr("x", 1, 1/zero) } } { $2 = "c"; print; print NF } END { print $0, NF, NR }`,
 	`BEGIN { printf "%s", "" > "/dev/stderr"; if (ENVIRON["K"] == "mode") { RS = ""; FS = "x" } } { n += NF; last = $NF } END { print n, last, RT == "\n", length(RT) }`,
-	// input mode switched at run time after the main scanner exists (G14-1: csvFields of an earlier run)
+	// input mode switched at run time after the main scanner exists (G14-1, repaired in d5c3fe1: csvFields of an earlier run)
 	`BEGIN { if (ENVIRON["K"] == "mode") { getline line; INPUTMODE = "csv" } } $1 == "boom" { INPUTMODE = "tsv" } { print NF, $1 } END { print INPUTMODE "|" NR }`,
 }
 
@@ -536,34 +536,7 @@ func c14Same(a, b c14Out) bool {
 }
 
 // c14Classify names the known-finding class of a failing case ("" = none; F18 is fixed and must not reappear).
-//
-// G14-1: the program assigns INPUTMODE at run time, and the difference disappears when no earlier run ever scanned a row
-// (all history inputs emptied, everything else kept): what leaks is csvFields, the row a csvSplitter of an earlier run left.
-func c14Classify(cs c14Case, reused, fresh c14Out) string {
-	if !strings.Contains(cs.Prog, "INPUTMODE =") || len(cs.History) == 0 {
-		return ""
-	}
-	cf := cs
-	cf.History = nil
-	for _, h := range cs.History {
-		h.Input = ""
-		cf.History = append(cf.History, h)
-	}
-	re := c14NewInterp(cf.Prog, true)
-	defer re.cleanup()
-	for _, h := range cf.History {
-		re.run(h)
-		re.wipe()
-	}
-	if cf.Reset {
-		re.in.ResetVars()
-		re.in.ResetRand()
-	}
-	if c14Same(re.run(cf.Probe), fresh) {
-		return "G14-1"
-	}
-	return ""
-}
+func c14Classify(cs c14Case, reused, fresh c14Out) string { return "" }
 
 type c14Verdict struct {
 	fail   *vh.Failure
@@ -657,7 +630,8 @@ func runC14(c *vh.Ctx) {
 		{Prog: `BEGIN { if (ENVIRON["K"] == "mode") INPUTMODE = "csv header" } { print NF, $1 } END { print INPUTMODE "|" }`,
 			History: []c14Run{{Entry: "exec", Input: "a,b\n1,2\n", Env: []string{"K", "mode"}}}, Reset: false, Probe: c14Run{Entry: "exec", Input: "a,b\n", Env: []string{"K", ""}}}, // ENVIRON is an array: K must be overwritten
 	}
-	// G14-1 (c7bccbd): csvFields of an earlier CSV run is installed as the fields of a record read by a non-CSV scanner
+	// G14-1 (introduced by c7bccbd, repaired in d5c3fe1): csvFields of an earlier CSV run was installed as the fields of a
+	// record read by a non-CSV scanner; regression case, must pass
 	corpus = append(corpus, c14Case{
 		Prog:    `BEGIN { if (ENVIRON["K"] == "switch") { getline line; INPUTMODE = "csv" } } { print NF, $1 }`,
 		History: []c14Run{{Entry: "exec", Input: "a,b,c\n", InputMode: 1, Env: []string{"K", ""}}}, Reset: true,
